@@ -41,7 +41,18 @@ def seeds():
         out.append(f"| {s} | {cell(m.get('needs', m.get('summary', 'see SEED_REPORT.md')), 300)} | {cell(caught, 300)} | {conf} |")
     return "\n".join(out)
 
-GEN = {"fixes": fixes, "known": known, "seeds": seeds}
+def thorough():
+    # kept as last written when the run logs are not available (fresh restore)
+    import subprocess
+    try:
+        out = subprocess.check_output(["python3", os.path.join(V, "tools", "thorough_table.py")]).decode().strip()
+        if out.count("\n") > 3:
+            return out
+    except Exception:
+        pass
+    return None
+
+GEN = {"fixes": fixes, "known": known, "seeds": seeds, "thorough": thorough}
 p = os.path.join(V, 'DESIGN.md')
 s = open(p).read()
 for name, fn in GEN.items():
@@ -49,6 +60,9 @@ for name, fn in GEN.items():
     if not pat.search(s):
         print("marker missing:", name)
         continue
-    s = pat.sub(lambda m: m.group(1) + fn() + "\n" + m.group(2), s)
+    val = fn()
+    if val is None:
+        continue
+    s = pat.sub(lambda m: m.group(1) + val + "\n" + m.group(2), s)
 open(p, 'w').write(s)
 print("DESIGN.md tables regenerated")
